@@ -465,5 +465,6 @@ pub fn run(opts: &Opts) -> Report {
     rep.exhaustive = false;
     rep.extra.insert("pairwise_exhaustive_over_text_len".into(), json!(n));
     rep.extra.insert("operator_combinations".into(), json!(ops.len()));
+    crate::fam::rel_crafted::run_all(&mut rep);
     rep
 }
